@@ -498,11 +498,12 @@ def check_C17(tier, seed):
     if e:
         run.violation(run.replay('build-tsan.txt', e), True)
     else:
-        envs = envs_for(rnd, tier, 6, 40)
+        envs = envs_for(rnd, tier, 6, 40, oneof_defaults=True)      # with the hand-made schemas: defaults of every kind are shared objects
         # always a schema with more than 128 fields (the parser's required-fields bitmap then lives outside the stack frame)
         envs.append(casegen.gen_env(rnd, nmsgs=2, big=True, wide=True))
         per_env = 40 if tier == 'quick' else 150
         nthreads = 8
+        tally_shared = [0]
         for env in envs:
             st.schemas += 1
             lines, _ = stream_pack(rnd, env, st, per_env, canon=False)
@@ -521,6 +522,12 @@ def check_C17(tier, seed):
             rc1, mt_out, mt_err = run_driver(exe, text, 'c17mt', pre_args=['-j', str(nthreads)])
             races = mt_err.count('WARNING: ThreadSanitizer')
             bad = common.diff_lines(seq_out, mt_out)
+            # the driver compares every shared object (descriptors, default values, the default allocator) with a snapshot
+            # taken before the first call: the library must not have written to any of them
+            shared = [w for w, o in (('sequential run', seq_out), ('threaded run', mt_out)) if 'SHARED-STATE-CHANGED' in o]
+            if shared:
+                bad = bad + ['SHARED-STATE-CHANGED (a descriptor, a default value or the default allocator was written to) in the ' + ' and the '.join(shared)]
+            tally_shared[0] += 1
             if races or bad or rc1 not in (0,):
                 if len(run.violations) < 3:
                     rp = run.replay('tsan-%d.txt' % len(run.violations),
@@ -529,6 +536,7 @@ def check_C17(tier, seed):
                                     (nthreads, races, bad[:5], text[:20000], mt_err[-6000:]))
                     run.violation(rp, False)
         run.cov['threads'] = nthreads
+        run.cov['shared_state_snapshots_compared'] = 2 * tally_shared[0]
     finish_stats(run, st, '%d threads run disjoint case streams (PACK, RT, allocator-instrumented unpack) against one shared set of descriptors '
                           'and the default allocator under ThreadSanitizer; per-line output must equal the sequential run and TSan must be silent; '
                           'distinct = distinct case lines' % 8)
@@ -886,7 +894,7 @@ def check_C03(tier, seed):
     per_env = 40 if tier == 'quick' else 120
     tally = {'pack_bytes_identical': 0, 'reference_reads_back_original': 0, 'cases': 0, 'spec_reader_inputs': 0,
              'spec_reader_agrees_with_libprotobuf': 0, 'spec_reader_both_reject': 0, 'spec_reader_groups_skipped': 0,
-             'whole_message_theorem_domain': 0, 'outside_whole_message_theorem': 0, 'records_equal_reader_equal_libprotobuf': 0}
+             'noncanonical_cases': 0, 'noncanonical_pack_bytes_identical': 0, 'whole_message_theorem_domain': 0, 'outside_whole_message_theorem': 0, 'records_equal_reader_equal_libprotobuf': 0}
     for env in envs:
         st.schemas += 1
         lines, msgs = stream_pack(rnd, env, st, per_env, canon=True)
@@ -903,6 +911,22 @@ def check_C03(tier, seed):
         if r_out[:1] and r_out[0].startswith('ENVERR'):
             run.notes.append('reference cannot express a generated schema: ' + r_out[0]); continue
         spec_reader_tie(run, ctx, env, lines, c_out, rnd, tally)
+        # well-formed messages that are not in the parser's normal form (booleans holding 256 or -1, has flags of 2, default
+        # pointers, NULL strings in proto3): the bytes must still be the bytes the reference writes for the same value
+        wl, _ = stream_pack(rnd, env, st, max(4, per_env // 4), canon=False)
+        wc, wm, wbad, wc_err, _ = corr(run, ctx, env, wl, 'c03w')
+        if wbad or len(wc) != len(wl):
+            viol(run, 'disagreement', open(report_disagreement(run, env.text(), wl, wc, wm, wbad, wc_err, 'Impl <-> C correspondence (pack, non-canonical) disagrees')).read())
+        else:
+            wr, wr_err = run_ref(ctx, env, wl, 'c03x')
+            for i, l in enumerate(wl):
+                ch = refnorm.pack_hex(wc[i]); rh = refnorm.pack_hex(wr[i]) if i < len(wr) else None
+                tally['noncanonical_cases'] += 1
+                if ch is None or rh is None or ch != rh:
+                    viol(run, 'oracle', 'protobuf-c and the reference serialise the same well-formed (non-canonical) message to different bytes\n--- schema + case\n%s%s\n--- protobuf-c\n%s\n--- libprotobuf\n%s\n'
+                         % (env.text(), l, wc[i][:3000], wr[i][:3000] if i < len(wr) else '<none>'))
+                else:
+                    tally['noncanonical_pack_bytes_identical'] += 1
         for i, l in enumerate(lines):
             tally['cases'] += 1
             ch = refnorm.pack_hex(c_out[i])
@@ -1005,10 +1029,11 @@ def check_C04(tier, seed, pid='C04'):
         for _ in range(per_env * (6 if ei < ncorner else 1)):      # the hand-made schemas carry the rare shapes
             d = rnd.randrange(len(env.msgs))
             m = casegen.gen_msg(rnd, env, d, canon=True)
-            bs, o = valid_variant(rnd, env, m, split=split)
+            sp = split or rnd.random() < 0.3      # an embedded message sent in several occurrences is a valid encoding too
+            bs, o = valid_variant(rnd, env, m, split=sp)
             l = 'UNPACK %d %s' % (d, casegen.hexs(bs))
             lines.append(l); origs.append('U ' + casegen.msg_text(m)); hasunk.append(o.unknown)
-            st.add('UNPACK:' + ('split+stale' if split else 'reencoded'), l)
+            st.add('UNPACK:' + ('split+stale' if sp else 'reencoded'), l)
         c_out, m_out, bad, c_err, text = corr(run, ctx, env, lines, pid.lower())
         if bad or len(c_out) != len(lines):
             viol(run, 'disagreement', open(report_disagreement(run, env.text(), lines, c_out, m_out, bad, c_err, 'Impl <-> C correspondence (unpack) disagrees')).read())
